@@ -307,3 +307,12 @@ def relative_replay():
         return None
 
     return replay
+
+
+def relative_candidates():
+    import itertools
+
+    toks = ["a", "ab", "b", "bc", 1, 10, "1", ""]
+    tuples = [()] + [(t,) for t in toks] + [(s, t) for s in toks for t in toks] + [("a", "b", "c"), ("a", "bc", "d"), ("xs", 1), ("xs", 10, "k")]
+    for a, b in itertools.product(tuples, repeat=2):
+        yield {"self_parts": list(a), "other_parts": list(b)}
